@@ -117,6 +117,21 @@ def verus_engine(prop, tier, scratch):
             continue
         if prop in attributed:
             failures.append(c)
+    # contract text of each function under contract (for the evidence samples)
+    lines_ = text.split('\n')
+    ctext = {}
+    for ln, mod, name, props, is_exec in fntab:
+        if props is None:
+            continue
+        seg = []
+        for l in lines_[ln - 1:ln + 60]:
+            if '/*BODY*/' in l:
+                break
+            seg.append(l.strip())
+        joined = ' '.join(seg)
+        k = joined.find('requires') if 'requires' in joined and joined.find('requires') < (joined.find('ensures') if 'ensures' in joined else 10**9) else joined.find('ensures')
+        if k >= 0:
+            ctext.setdefault((mod, name), re.sub(r'\s+', ' ', joined[k:])[:500])
     for key, n in sorted(expected.items()):
         entries = led.get(key, [])
         okc = len([e for e in entries if e['success']])
@@ -125,7 +140,7 @@ def verus_engine(prop, tier, scratch):
         fails_here = [c for c in failures if c['fn'] == key]
         obligations.append({'name': name, 'expected': n, 'verified': okc, 'failed': len(bad),
                             'time_ms': sum((e['time_ms'] or 0) for e in entries), 'rlimit': sum((e['rlimit'] or 0) for e in entries),
-                            'backend': 'z3 via verus', 'ok': okc >= n and not bad and not fails_here})
+                            'backend': 'z3 via verus', 'ok': okc >= n and not bad and not fails_here, 'contract': ctext.get(key, '(panic-freedom / termination obligations of the body)')})
     for c in undecided:
         # an undecided diagnostic inside one of this property's fns blocks a verdict
         if c['fn'] in expected or c['fn'] is None:
